@@ -118,7 +118,8 @@ def rule_ctx(c: Ctx) -> RuleResult:
                 if kk in env and not (loops and _post_dominated_by(cfg, kk, n, loops, f)):
                     per_field.setdefault(kk, f"line {n.lineno}: {env[kk]}")
             for (k, v) in env.get("!lost", frozenset()):
-                if k.startswith(st + ".") and not (loops and _post_dominated_by(cfg, k, n, loops, f)):
+                if k.startswith(st + ".") and "[" in k and k.split(".", 1)[1].split("[")[0] in TABLES \
+                        and not (loops and _post_dominated_by(cfg, k, n, loops, f)):
                     per_field.setdefault(k + " (index variable reassigned while the cell was modified)", f"line {n.lineno}: {v}")
         for fld in CTX_FIELDS:
             key = f"{f.short}|{fld}"
